@@ -101,8 +101,23 @@ fn spec_hash(spec: &Spec) -> u64 {
     hash_bytes(&to_bytes(&spec.back)) ^ hash_bytes(&to_bytes(&spec.src)).rotate_left(13) ^ mix(spec.mode as u64, (spec.lop as u64) << 8 | spec.cop as u64)
 }
 
-/// C03 oracle for one sprite.
+/// C03 oracle for one sprite. HSL and random sprites are additionally rendered in other modes right
+/// after the first one, on the same thread and the same pixel data (the last tuple repeats the first), so
+/// that anything remembered from one blend call to the next (across cels, frames, sprites, modes) shows.
 pub fn check_c03(spec: &Spec) -> CheckResult {
+    let first = check_c03_mode(spec)?;
+    if spec.family != "channel-exhaustive" {
+        let others: Vec<u16> = if HSL.contains(&spec.mode) { HSL.iter().copied().filter(|m| *m != spec.mode).collect() } else { vec![(spec.mode + 1) % 19, 12 + spec.mode % 4] };
+        for m in others {
+            let mut s2 = spec.clone();
+            s2.mode = m;
+            check_c03_mode(&s2)?;
+        }
+    }
+    Ok(first)
+}
+
+fn check_c03_mode(spec: &Spec) -> CheckResult {
     let got = render(spec, spec.mode)?;
     // the reference composes both layers: empty canvas + backdrop (Normal 255), then the source
     let zeros = vec![0u32; spec.back.len()];
@@ -222,6 +237,9 @@ pub fn spec_hsl(mode: u16, vals: &[u8], block: u64, ba: u8, sa: u8, lop: u8, cop
         back.push(pack(c[0], c[1], c[2], ba));
         src.push(pack(c[3], c[4], c[5], sa));
     }
+    let n = back.len();
+    back[n - 1] = back[0];
+    src[n - 1] = src[0];
     Spec { family: "hsl-grid", mode, lop, cop, w: 256, h: 256, back, src, descr: format!("colour grid {}^3 x {}^3 block {} Ba={} Sa={}", n, n, block, ba, sa), tilemap_top: false }
 }
 
@@ -263,6 +281,9 @@ pub fn spec_random(mode: u16, seed: u64, biased: bool) -> Spec {
         back.push(pack(b[0], b[1], b[2], b[3]));
         src.push(pack(s[0], s[1], s[2], s[3]));
     }
+    let n = back.len();
+    back[n - 1] = back[0];
+    src[n - 1] = src[0];
     Spec { family: if tilemap_top { "random-tilemap-source" } else if biased { "boundary-biased-random" } else { "uniform-random" }, mode, lop, cop, w: 128, h: 128, back, src, descr: format!("seed {}{}", seed, if tilemap_top { ", source layer is a tilemap" } else { "" }), tilemap_top }
 }
 
